@@ -18,6 +18,54 @@ CHECKS = {
         note="allow_negative_balances=True isolates the matcher's guard; amounts <= 11 decimals; optional crypto_out_with_fee consistent when present (R4).",
         design="DESIGN.md section 4 / C02",
     ),
+    "C03": dict(
+        technique="property-based testing (Hypothesis): histories cycling through all 14 transaction types; expected taxable set derived from the rows vs taxable_event_set and per-event fraction coverage",
+        text="Generated histories over all types/tables; oracle = set equality of taxable events by row plus per-event shape (income: one lot-less full-amount zero-basis fraction at its fiat value; out: amount+fee; transfer: fee only, type MOVE).",
+        note="For an income row with a fee either fiat_in_no_fee or fiat_in_with_fee is accepted as 'its fiat value'; histories valid by construction.",
+        design="DESIGN.md section 4 / C03",
+    ),
+    "C04": dict(
+        technique="property-based testing (Hypothesis) against an exact rational (fractions.Fraction) reference model with a 1e-15 relative bound, plus a runtime Decimal->float conversion monitor",
+        text="Wide-range numerics (1e-11..1e9 units, prices 1e-8..1e7, supplied fiat columns) compared per fraction and re-assembled per event / per fully consumed lot against exact arithmetic; largest observed relative error is reported (about 1e-30).",
+        note="Monitor wraps RP2Decimal.__float__ from outside the package; supplied fiat values > 0 and crypto_out_with_fee consistent (R4).",
+        design="DESIGN.md section 4 / C04",
+    ),
+    "C05": dict(
+        technique="exhaustive boundary grid (11k points: instants x offset pairs x +-1us/1s around the threshold x all country plugins / generic periods) + Hypothesis-generated multi-lot disposals; integer-microsecond oracle",
+        text="The grid part enumerates its finite sub-domain completely (grid_exhaustive=true); the generated part covers multi-lot disposals with lots on both sides of the threshold, income events and random offsets.",
+        note="Periods that cannot be reached before year 9999 (10^9 days, JP/IE) are exercised as 'never'; generic plugin built under a patched environment.",
+        design="DESIGN.md section 4 / C05",
+    ),
+    "C06": dict(
+        technique="property-based testing (Hypothesis): independent re-summation of detail fractions by (own local year, asset, type, long) vs yearly_gain_loss_list, with to-date and from-date",
+        text="Multi-year histories with mixed long/short sales and local-year != UTC-year instants; map equality (no duplicate, no empty line), four sums per line, grand totals, from-year restriction.",
+        note="Date-monotone histories (R3); sums compared to 1e-25 relative; the detail itself is tied to the input by C01-C05.",
+        design="DESIGN.md section 4 / C06",
+    ),
+    "C07": dict(
+        technique="property-based testing (Hypothesis): per-account flow model from the rows vs balance_set, plus reconciliation sum(final) = lots - consumed",
+        text="Multi-account (joint filing) histories with transfers incl. to-self, to-date cuts and, with -n, injected overdrafts; exact equality of acquired/sent/received/final per account and of the reconciliation identity.",
+        note="Per-holder totals are a report-level figure (C13); whole-holding over-spends are C02's subject and skipped.",
+        design="DESIGN.md section 4 / C07",
+    ),
+    "C08": dict(
+        technique="property-based testing (Hypothesis) with injected overdrafts (dust..large, transient, permuted row order, same-instant mixes) against a three-valued order-independent verdict",
+        text="Must-reject / must-accept / undecided verdict computed from the rows; rejected runs must raise RP2ValueError naming an overdrawn account; with -n the negative final balance must be reported.",
+        note="Tolerance band [-1e-10,0) and same-instant transfer chains are not asserted (counted as ambiguous_skipped).",
+        design="DESIGN.md section 4 / C08",
+    ),
+    "C09": dict(
+        technique="stateful property-based testing (Hypothesis RuleBasedStateMachine growing a history; invariant compares every earlier snapshot) + metamorphic to-date vs truncation relation",
+        text="Every cut point of every generated growth history is compared (fractions, figures, closed-year totals); the to-date form compares whole ComputedData dumps incl. k/n labels, balances, average price, running sums.",
+        note="Cut points between distinct instants; form (b) histories date-monotone (R3).",
+        design="DESIGN.md section 4 / C09",
+    ),
+    "C10": dict(
+        technique="metamorphic property-based testing (Hypothesis): unfiltered vs to-date-only vs from+to runs of the same history; independent recount of k/n labels",
+        text="Windows on/around/between transaction dates, empty windows, from==to; identical figures for shown fractions, exact window membership of transactions, balances/average price/labels as of the to-date, yearly lines from the from-year. One listed known finding (F7, non-monotone local dates) is matched by signature.",
+        note="Date-monotone histories (R3) except in the sub-generator aimed at F7; sold-percentage is judged by C13.",
+        design="DESIGN.md section 4 / C10",
+    ),
 }
 
 NOT_APPLICABLE = []
